@@ -2,6 +2,7 @@ package sio
 
 func (m *Manager) OffAll() {
 	m.openHandlers.offAll()
+	m.pingHandlers.offAll()
 	m.errorHandlers.offAll()
 	m.closeHandlers.offAll()
 	m.reconnectHandlers.offAll()
